@@ -845,7 +845,8 @@ def gen_loader_case(ctx, rng, i, cls):
         return {"i": i, "cls": cls, "kind": "numbers", "files": filesl, "nt": any(f["n"] >= 2 for f in filesl), "summary": summ}
     if cls == "dose_mdoc":
         n = _n_rows(rng, tier)
-        st = O.gen_mdoc(rng, n, cls=str(rng.choice(["plain", "crlf"])), with_prior=bool(rng.random() < 0.85), ties=bool(rng.random() < 0.35))
+        st = O.gen_mdoc(rng, n, cls=str(rng.choice(["plain", "crlf"])), with_prior=bool(rng.random() < 0.85), ties=bool(rng.random() < 0.35),
+                        prior_mode=str(rng.choice(["cumulative", "zeros", "constant"], p=[0.45, 0.4, 0.15])))
         summ = {"images": n, "tilt_repeats": n - len(set(st["tilts"])), "scheme": st["scheme"], "prior": st["with_prior"], "layout": st["layout"], "first": st["sections"][0]["items"][:4]}
         return {"i": i, "cls": cls, "kind": "dose_mdoc", "st": st, "nt": n >= 2, "summary": summ}
     n = _n_rows(rng, tier)
@@ -931,6 +932,9 @@ def gen_wedge_case(ctx, rng, i, cls):
                       "ang": [float(x) for x in np.round(rng.uniform(-90, 90, n), 4)], "phase": [float(x) for x in np.round(rng.uniform(0, 1, n), 4)],
                       "dose": [float(x) for x in dose], "dims": d0 if shared_dims else [float(x) for x in rng.integers(50, 2000, 3)], "z": z,
                       "sub": int(rng.integers(0, 1 << 30))})
+    if tlt_kind == "mdoc" and rng.random() < 0.45:     # PriorRecordDose 0 in every image: dose = exposure for every tilt
+        for t in tomos:
+            t["dose"] = [min(t["dose"])] * len(t["dose"])
     defaults = bool(rng.random() < 0.25)
     consts = {"pixel_size": float(np.round(rng.uniform(0.5, 15), 3)), "voltage": 300.0 if defaults else float(rng.choice([200.0, 300.0, 120.0])),
               "amp_contrast": 0.07 if defaults else float(np.round(rng.uniform(0.05, 0.15), 3)), "cs": 2.7 if defaults else float(rng.choice([2.7, 2.0, 0.01, 2.26])),
@@ -960,7 +964,7 @@ def gen_wedge_case(ctx, rng, i, cls):
             "tlt_fmt": str(rng.choice(TLT_FORMATS)), "consts": consts, "ctf_whole": ctf_whole, "write": bool(rng.random() < 0.6), "list_sorted": bool(rng.random() < 0.7),
             "single_inputs": {"tlt": str(rng.choice(["file", "array", "list"])), "ctf": str(rng.choice(["file", "frame", "frame_odd", "array"])),
                               "dose": str(rng.choice(["file", "array", "list"])), "drop": bool(rng.random() < 0.7)},
-            "em_source": str(rng.choice(["batch_star", "own_star", "own_star_shuffled", "frame"]))}
+            "em_source": str(rng.choice(["batch_star", "own_star", "own_star_shuffled", "frame", "frame_shuffled"], p=[0.15, 0.1, 0.45, 0.1, 0.2]))}
     if case["list_sorted"] or case["list_kind"] == "file":
         case["tomos"] = sorted(tomos, key=lambda d: d["id"])
     case["nt"] = sum(len(t["tilts"]) for t in tomos) >= 2 and (T >= 2 or ctf_kind != "none" or dose_kind != "none")
@@ -1000,7 +1004,7 @@ def gen_reuse_case(ctx, rng, i, cls):
 
 def run_reuse(ctx, case):
     md = ctx.md
-    base = os.path.join(ctx.scratch, "c%d" % case["i"])
+    base = _base(ctx, case)
     arr = np.array([x + (1 if case["from1"] else 0) for x in case["indices"]], dtype=case["dtype"])
     for j, (st, model) in enumerate(zip(case["sts"], case["models"])):
         if j and case["variant"] == "mutate":
@@ -1045,6 +1049,14 @@ def nontrivial(case):
 # ================================================================================================
 # drivers
 # ================================================================================================
+BASE_NAMES = ["c%d", "c%d tilt series", "c%d_[a]", "c%d_série α", "c%d_x*y?", "c%d/sub dir/ts"]
+
+
+def _base(ctx, case):
+    """scratch directory of a case; its name carries spaces, [ ] * ? and non-ASCII characters and sub-directories in turn"""
+    return os.path.join(ctx.scratch, BASE_NAMES[(case["i"] // len(CLASSES)) % len(BASE_NAMES)] % case["i"])
+
+
 def _write_text(path, text):
     os.makedirs(os.path.dirname(path), exist_ok=True)
     with open(path, "w", newline="", encoding="utf-8") as f:
@@ -1159,9 +1171,14 @@ def _indices_as(op):
     return ind
 
 
+def _flag(v, i):
+    """flags arrive as numpy booleans as often as Python ones (results of comparisons on arrays)"""
+    return np.bool_(v) if i % 2 else bool(v)
+
+
 def run_mdoc(ctx, case):
     md, st, i = ctx.md, case["st"], case["i"]
-    base = os.path.join(ctx.scratch, "c%d" % i)
+    base = _base(ctx, case)
     os.makedirs(base, exist_ok=True)
     text = O.render_mdoc(st)
     p = O.parse_mdoc(text)
@@ -1181,6 +1198,8 @@ def run_mdoc(ctx, case):
         imgs = m.imgs.copy()
         n = len(imgs)
         r3 = ctx.rng(i, 2)
+        if r3.random() < 0.5:              # a table derived from the loaded one with its columns in another order
+            imgs = imgs[[imgs.columns[j] for j in r3.permutation(len(imgs.columns))]]
         if case["index_kind"] == "permuted":
             imgs.index = r3.permutation(n)
         elif case["index_kind"] == "gaps":
@@ -1228,9 +1247,9 @@ def run_mdoc(ctx, case):
             wr = dict(wr, removed=False)
             continue
         if op["op"] == "sort":
-            ok, _ = ctx.call("sort_by_tilt", m.sort_by_tilt, reset_z_value=op["reset"])
+            ok, _ = ctx.call("sort_by_tilt", m.sort_by_tilt, reset_z_value=_flag(op["reset"], i))
         else:
-            ok, _ = ctx.call("remove_images", m.remove_images, _indices_as(op), kept_only=op["kept_only"])
+            ok, _ = ctx.call("remove_images", m.remove_images, _indices_as(op), kept_only=_flag(op["kept_only"], i))
         if not ok:
             return
     if not written:
@@ -1238,7 +1257,7 @@ def run_mdoc(ctx, case):
             out = m.file_path
             ok, _ = ctx.call("Mdoc.write(default path)", m.write, overwrite=True, removed=wr["removed"])
         else:
-            ok, _ = ctx.call("Mdoc.write", m.write, out, removed=wr["removed"])
+            ok, _ = ctx.call("Mdoc.write", m.write, out, removed=_flag(wr["removed"], i))
         if not ok:
             return
     if i % 5 == 0:
@@ -1263,7 +1282,7 @@ def run_mdoc(ctx, case):
 
 def run_numbers(ctx, case):
     io = ctx.io
-    base = os.path.join(ctx.scratch, "c%d" % case["i"])
+    base = _base(ctx, case)
     is_tlt = case["cls"] == "tlt_files"
     for k, f in enumerate(case["files"]):
         r2 = np.random.default_rng(f["sub"])
@@ -1271,10 +1290,12 @@ def run_numbers(ctx, case):
         ext = str(r2.choice([".tlt", ".rawtlt", ".txt", ".csv"] if is_tlt else [".txt", ".dose", ".dat"]))
         path = os.path.join(base, "f%d%s" % (k, ext))
         _write_text(path, text)
+        if k == 1 and os.path.abspath(os.getcwd()) == os.path.abspath(ctx.scratch):
+            path = os.path.relpath(path, ctx.scratch)          # a relative path (the working directory is the scratch directory)
         truth = np.array([float(t) for t in toks])
         if is_tlt:
             calls = [("tlt_load(file)", lambda: io.tlt_load(path), np.sort(truth)),
-                     ("tlt_load(file, unsorted)", lambda: io.tlt_load(path, sort_angles=False), truth)]
+                     ("tlt_load(file, unsorted)", lambda: io.tlt_load(path, sort_angles=np.False_), truth)]
         else:
             calls = [("total_dose_load(file)", lambda: io.total_dose_load(path), truth)]
         calls.append(("one_value_per_line_read", lambda: io.one_value_per_line_read(path), truth))
@@ -1312,7 +1333,7 @@ def run_dose_mdoc(ctx, case):
         return
     dose = np.array([float(dict(s["items"])["ExposureDose"]) + float(dict(s["items"])["PriorRecordDose"]) for s in st["sections"]])
     for sort in (True, False):
-        ok, r = ctx.call("total_dose_load(mdoc)", io.total_dose_load, path, sort_mdoc=sort)
+        ok, r = ctx.call("total_dose_load(mdoc)", io.total_dose_load, path, sort_mdoc=_flag(sort, case["i"]))
         if ok:
             order = np.argsort(tilts, kind="stable")
             exp = dose[order] if sort else dose
@@ -1331,7 +1352,7 @@ def run_dose_mdoc(ctx, case):
 
 def run_defocus(ctx, case):
     io = ctx.io
-    base = os.path.join(ctx.scratch, "c%d" % case["i"])
+    base = _base(ctx, case)
     r2 = ctx.rng(case["i"], 1)
     U, V, ang, ph = case["U"], case["V"], case["ang"], case["phase"]
     if case["cls"] == "gctf":
@@ -1366,9 +1387,46 @@ def run_defocus(ctx, case):
 
 # ---- wedge lists ---------------------------------------------------------------------------------
 def _odd_frame(rng, a, columns=None):
+    """a frame whose row labels are not 0..n-1: permuted, gapped, reversed, 1-based, repeated (concat without ignore_index), all equal, text"""
     df = pd.DataFrame(np.asarray(a), columns=columns)
-    df.index = rng.permutation(len(df)) * 2 + 5
+    n = len(df)
+    kind = str(rng.choice(["permuted", "gapped", "reversed", "one_based", "repeated", "all_zero", "text"]))
+    if kind == "permuted":
+        df.index = rng.permutation(n) * 2 + 5
+    elif kind == "gapped":
+        df.index = np.sort(rng.choice(np.arange(3 * n + 5), n, replace=False))
+    elif kind == "reversed":
+        df.index = np.arange(n)[::-1]
+    elif kind == "one_based":
+        df.index = np.arange(1, n + 1)
+    elif kind == "repeated":
+        h = (n + 1) // 2
+        df.index = np.concatenate([np.arange(h), np.arange(n - h)])
+    elif kind == "all_zero":
+        df.index = np.zeros(n, dtype=int)
+    else:
+        df.index = ["row_%d" % k for k in rng.permutation(n)]
     return df
+
+
+def _layout(rng, a):
+    """the same numbers in another memory layout / dtype: non-contiguous slice, negative stride, Fortran order, read-only, float32"""
+    a = np.array(a, dtype=float)
+    kind = str(rng.choice(["plain", "strided", "negative_stride", "fortran", "readonly", "float32"]))
+    if kind == "strided":
+        big = np.zeros((2 * a.shape[0],) + a.shape[1:])
+        big[::2] = a
+        return big[::2]
+    if kind == "negative_stride":
+        return np.ascontiguousarray(a[::-1])[::-1]
+    if kind == "fortran" and a.ndim == 2:
+        return np.asfortranarray(a)
+    if kind == "readonly":
+        a.setflags(write=False)
+        return a
+    if kind == "float32":
+        return a.astype(np.float32)
+    return a
 
 
 def materialise(ctx, case, base):
@@ -1520,7 +1578,7 @@ def _f3_key(e):
     return None
 
 
-def direct_wedge_inputs(ctx, case, args, truth, const_kw):
+def direct_wedge_inputs(ctx, case, args, truth, const_kw, r):
     """direct calls (see 'direct calls' above) of the file loaders and of create_wedge_list_sg on every tomogram of the project"""
     io, wu, c = ctx.io, ctx.wu, case["consts"]
     for t in case["tomos"]:
@@ -1545,11 +1603,50 @@ def direct_wedge_inputs(ctx, case, args, truth, const_kw):
         if ok:
             w = O.compare_frame(df, truth_columns(case, truth, [tid]))
             ctx.check("wedge_truth", w is None, dict(w, call="create_wedge_list_sg(direct)") if w else None)
+        # flow between the anchors: the very objects the loaders return (tilt array, defocus TABLE, dose array) go into the builder,
+        # the table after the usual clean-up steps that leave its row labels different from 0..n-1 (bad tilts dropped with a mask,
+        # 1-based numbering, reversed without reset_index, two halves concatenated); rows pair by POSITION with the tilts
+        ok1, tl = ctx.call("tlt_load(for chain)", io.tlt_load, tlt)
+        fr = ds = None
+        ok2 = ok3 = True
+        if ctf:
+            ok2, fr = ctx.call("defocus_load(for chain)", io.defocus_load, ctf, case["ctf_kind"])
+        if dose:
+            ok3, ds = ctx.call("total_dose_load(for chain)", io.total_dose_load, dose)
+        if not (ok1 and ok2 and ok3):
+            continue
+        tr = dict(truth[tid])
+        n = len(tr["tilt_angle"])
+        variant = str(r.choice(["mask", "reversed", "one_based", "repeated", "as_is"])) if fr is not None else "as_is"
+        tl, ds = np.array(tl), (np.array(ds) if ds is not None else None)
+        if variant == "mask" and n >= 2:
+            keep = r.random(n) < 0.7
+            keep[int(r.integers(0, n))] = False
+            keep[int(r.integers(0, n))] = True
+            fr, tl = fr[keep], tl[keep]
+            ds = ds[keep] if ds is not None else None
+            for k in ("tilt_angle", "defocus", "exposure"):
+                tr[k] = tr[k][keep] if tr[k] is not None else None
+        elif variant == "reversed":
+            fr = fr.iloc[::-1]
+            tr["defocus"] = tr["defocus"][::-1]
+        elif variant == "one_based":
+            fr = fr.copy()
+            fr.index = np.arange(1, len(fr) + 1)
+        elif variant == "repeated":
+            h = (len(fr) + 1) // 2
+            fr = pd.concat([fr.iloc[:h], fr.iloc[h:].reset_index(drop=True)])
+        ok, df = ctx.call("create_wedge_list_sg(loader objects, %s)" % variant, wu.create_wedge_list_sg, tomo_id=np.int64(tid), tomo_dim=_odd_frame(r, [t["dims"]]),
+                          pixel_size=c["pixel_size"], tlt_file=tl, z_shift=_odd_frame(r, [[t["z"]]]), ctf_file=fr, dose_file=ds,
+                          drop_nan_columns=[True, np.True_][int(r.integers(0, 2))], **const_kw)
+        if ok:
+            w = O.compare_frame(df, truth_columns(case, {tid: tr}, [tid]))
+            ctx.check("wedge_truth", w is None, dict(w, call="create_wedge_list_sg(loader objects)", variant=variant) if w else None)
 
 
 def run_wedge(ctx, case):
     wu = ctx.wu
-    base = os.path.join(ctx.scratch, "c%d" % case["i"])
+    base = _base(ctx, case)
     os.makedirs(base, exist_ok=True)
     args, truth = materialise(ctx, case, base)
     c = case["consts"]
@@ -1558,7 +1655,7 @@ def run_wedge(ctx, case):
     const_kw = {k: (zero if c[k] == 0 else c[k]) for k in c["explicit"]}
     cls = case["cls"]
     r = ctx.rng(case["i"], 2)
-    direct_wedge_inputs(ctx, case, args, truth, const_kw)
+    direct_wedge_inputs(ctx, case, args, truth, const_kw, r)
     if cls == "wedge_single":
         t = case["tomos"][0]
         tid = t["id"]
@@ -1566,19 +1663,19 @@ def run_wedge(ctx, case):
         tr = truth[tid]
         tlt = O.expand_format(args["tlt_file_format"], tid)
         if case["tlt_kind"] == "tlt" and si["tlt"] != "file":
-            tlt = np.array(t["tilts"]) if si["tlt"] == "array" else list(t["tilts"])
+            tlt = _layout(r, t["tilts"]) if si["tlt"] == "array" else list(t["tilts"])
         ctf = None
         if case["ctf_kind"] != "none":
             ctf = O.expand_format(args["ctf_file_format"], tid)
             if si["ctf"] != "file":
                 U, V = np.array(t["U"]), np.array(t["V"])
                 tab = np.column_stack([U * 1e-4, V * 1e-4, t["ang"], t["phase"], (U + V) / 2 * 1e-4])
-                ctf = tab if si["ctf"] == "array" else (pd.DataFrame(tab, columns=DEF_COLS) if si["ctf"] == "frame" else _odd_frame(r, tab, DEF_COLS))
+                ctf = _layout(r, tab) if si["ctf"] == "array" else (pd.DataFrame(tab, columns=DEF_COLS) if si["ctf"] == "frame" else _odd_frame(r, tab, DEF_COLS))
         dose = None
         if case["dose_kind"] != "none":
             dose = O.expand_format(args["dose_file_format"], tid)
             if case["dose_kind"] == "txt" and si["dose"] != "file":
-                dose = np.array(t["dose"]) if si["dose"] == "array" else list(t["dose"])
+                dose = _layout(r, t["dose"]) if si["dose"] == "array" else list(t["dose"])
         dim = args["tomo_dim"]
         out = os.path.join(base, "wl_single.star") if case["write"] else None
         z = args["z_shift"]
@@ -1593,7 +1690,7 @@ def run_wedge(ctx, case):
         # three-step history: the caller modifies its own arrays / lists IN PLACE between the calls; every call is judged against
         # the values they hold at that moment, and no call may change them
         owned = [x for x in (tlt, ctf, dose) if isinstance(x, (np.ndarray, list))]
-        if not owned:
+        if not owned or any(isinstance(x, np.ndarray) and not x.flags.writeable for x in owned):
             return
         tr2 = dict(tr)
         for step in (1, 2):
@@ -1649,10 +1746,10 @@ def run_wedge(ctx, case):
         spath = os.path.join(base, "own.star")
         O.write_wedge_star(r, spath, ids, [truth[t]["tilt_angle"] for t in ids], shuffle_rows=(src == "own_star_shuffled"))
     arg = spath
-    if src == "frame" and ok:
-        arg = df.copy()
-        arg.index = r.permutation(len(arg)) + 3
-    ok2, em2 = ctx.call("wedge_list_sg_to_em", wu.wedge_list_sg_to_em, arg, os.path.join(base, "wl2.em"), write_out=bool(r.random() < 0.8))
+    if src in ("frame", "frame_shuffled") and ok:       # rows of a tomogram not ascending in tilt (lists built from arrays in acquisition order)
+        arg = df.iloc[r.permutation(len(df))].copy() if src == "frame_shuffled" else df.copy()
+        arg = _odd_frame(r, arg.to_numpy(dtype=float), list(arg.columns))
+    ok2, em2 = ctx.call("wedge_list_sg_to_em", wu.wedge_list_sg_to_em, arg, os.path.join(base, "wl2.em"), write_out=[True, np.True_, False, np.False_, True][int(r.integers(0, 5))])
     if ok2:
         got2 = _frame3(em2, ["tomo_id", "min_tilt_angle", "max_tilt_angle"])
         good = got2 is not None and sorted(got2[:, 0].tolist()) == sorted(mm) and all(abs(a - mm[t][0]) <= 1e-4 and abs(b - mm[t][1]) <= 1e-4 for t, a, b in got2)
@@ -1666,7 +1763,7 @@ def run_wedge(ctx, case):
 
 def run_case(ctx, case):
     kind = case["kind"]
-    base = os.path.join(ctx.scratch, "c%d" % case["i"])
+    base = _base(ctx, case)
     try:
         if kind == "mdoc":
             run_mdoc(ctx, case)
@@ -1681,6 +1778,7 @@ def run_case(ctx, case):
         else:
             run_wedge(ctx, case)
     finally:
+        shutil.rmtree(os.path.join(ctx.scratch, "c%d" % case["i"]), ignore_errors=True)
         shutil.rmtree(base, ignore_errors=True)
 
 
